@@ -144,6 +144,11 @@ func buildKinds(k *key, d, g int) []*proof {
 	for i := 1; i < len(torsion); i++ {
 		out = append(out, intern(refbls.EncodeG1(h.Add(torsion[i]))))
 	}
+	// the NEGATED torsion offsets: on the two sides of one call, s1+T and s2-T are both outside G1
+	// while their sum is inside (errors that cancel across the two proofs)
+	for i := 0; i < len(torsion); i++ {
+		out = append(out, intern(refbls.EncodeG1(h.Add(torsion[i].Neg()))))
+	}
 	if len(out) != nKinds() {
 		run.Fatal("harness bug: %d kinds built, %d named", len(out), nKinds())
 	}
@@ -229,7 +234,7 @@ func main() {
 			run.Fatal("%v", err)
 		}
 		torsion = append(torsion, t11, refbls.CofactorPointG1())
-		kindNames = append(kindNames, "scaled-by-2", "scaled-by-r-1", "s+T11-outside-G1", "s+cofactor-point-outside-G1")
+		kindNames = append(kindNames, "scaled-by-2", "scaled-by-r-1", "s+T11-outside-G1", "s+cofactor-point-outside-G1", "s-T3-outside-G1", "s-T11-outside-G1", "s-cofactor-point-outside-G1")
 	}
 	if run.Thorough() {
 		cPriv, c := gen(2)
@@ -310,7 +315,7 @@ func main() {
 	}())
 	run.Set("alphabet_tags", tags)
 	run.Set("distinct_proof_strings", len(proofs))
-	run.Set("rule", "SPOCKVerify on the full product: ordered key pairs (keys x keys) x data x tags x proof kind of side 1 x proof kind of side 2 (kinds are relative to the shared (data,tag) and the side's key: honest sk*H, sk*H(other data), sk*H under the other tag, c*sk*H for a common factor c, sk*H+T with T outside G1, the identity encoding, compression bit cleared, lengths 0/47/49), each case evaluated as (pk1,p1,pk2,p2) and swapped (pk2,p2,pk1,p1). Expected verdict computed by refbls: both strings canonical, both points in G1, no identity key, sk2*p1 == sk1*p2. "+
+	run.Set("rule", "SPOCKVerify on the full product: ordered key pairs (keys x keys) x data x tags x proof kind of side 1 x proof kind of side 2 (kinds are relative to the shared (data,tag) and the side's key: honest sk*H, sk*H(other data), sk*H under the other tag, c*sk*H for a common factor c, sk*H+T and sk*H-T with T outside G1 (so that the two sides can carry offsets that cancel), the identity encoding, compression bit cleared, lengths 0/47/49), each case evaluated as (pk1,p1,pk2,p2) and swapped (pk2,p2,pk1,p1). Expected verdict computed by refbls: both strings canonical, both points in G1, no identity key, sk2*p1 == sk1*p2. "+
 		"Call histories of length 2 on one OS thread: all ordered pairs over an alphabet of SPOCKVerify calls (keys a,b x proof kinds honest / other data / common factor / +T3 / identity / bad header / length 47), the second call returns its reference verdict whatever the first was. Plus: SPOCKProve == Sign == EncodeG1(sk*H) and SPOCKVerifyAgainstData == Verify == reference on keys x data x tags x candidate kinds x attributed key; ECDSA keys (P-256, secp256k1) at every key position => IsNotBLSKeyError. A case is distinct by (call, key1, key2, data, tag, kind1, kind2, swapped); cases whose proofs fail the length guard on both sides are not counted as distinct non-trivial.")
 	fmt.Printf("C17 setup done at %.1fs: %d keys, %d distinct proof strings, %d scalars\n", time.Since(t0).Seconds(), len(keys), len(proofs), len(scalars))
 
